@@ -15,7 +15,7 @@ pub open spec fn line_of(w: Seq<u8>, k: int) -> Seq<u8> {
     if k >= 2 && w[k - 2] == 13u8 { w.take(k - 2) } else { w.take(k - 1) }
 }
 pub open spec fn size_line(w: Seq<u8>) -> Option<(nat, int)> {
-    let k = until_len(w, 128, 10u8);
+    let k = until_len(w, CHUNK_LINE_MAX, 10u8);
     if k < 1 || w[k - 1] != 10u8 { None }
     else {
         let line = line_of(w, k);
@@ -95,7 +95,7 @@ pub proof fn lemma_size_line(l: Seq<u8>, n: nat, rest: Seq<u8>)
     let k: int = l.len() as int + 2;
     let ll: int = l.len() as int;
     assert(w.len() >= k);
-    let lim: int = if 128 < w.len() { 128 } else { w.len() as int };
+    let lim: int = if (CHUNK_LINE_MAX as int) < w.len() { CHUNK_LINE_MAX as int } else { w.len() as int };
     assert(lim >= k);
     let t = w.take(lim);
     assert(t[ll] == 13u8);
@@ -104,7 +104,7 @@ pub proof fn lemma_size_line(l: Seq<u8>, n: nat, rest: Seq<u8>)
         if i < ll { assert(t[i] == l[i]); }
     }
     lemma_first_idx(t, 10u8, ll + 1);
-    assert(until_len(w, 128, 10u8) == k);
+    assert(until_len(w, CHUNK_LINE_MAX, 10u8) == k);
     assert(w[k - 1] == 10u8);
     assert(w[k - 2] == 13u8);
     assert(line_of(w, k) =~= l);
